@@ -5,16 +5,28 @@ WT="$1"; K="$2"; OUT="$WT/OUT/$K"
 export CARGO_NET_OFFLINE=true
 cd "$WT" || exit 2
 git checkout -q -- . 
-demo=$(basename "$(ls fastrace/tests/seeded_demo_${K}*.rs 2>/dev/null | head -1)" .rs)
+demo=""; DEMOCMD=""
+for d in fastrace fastrace-futures test-statically-disable; do
+  f=$(ls $d/tests/seeded_demo_${K}*.rs 2>/dev/null | head -1)
+  if [ -n "$f" ]; then
+    demo=$(basename "$f" .rs)
+    case $d in
+      fastrace) DEMOCMD="cargo test -p fastrace@0.7.9 --features enable --offline --test $demo";;
+      fastrace-futures) DEMOCMD="cargo test -p fastrace-futures --features fastrace/enable --offline --test $demo";;
+      test-statically-disable) DEMOCMD="cargo test -p test-statically-disable --offline --test $demo";;
+    esac
+    break
+  fi
+done
 [ -z "$demo" ] && { echo "no demo test found"; exit 2; }
 {
 echo "== demo without change ($demo)"
-cargo test -p fastrace@0.7.9 --features enable --offline --test "$demo" 2>&1 | grep -E "^test result|panicked|FAILED|error" | head -5
+$DEMOCMD 2>&1 | grep -E "^test result|panicked|FAILED|error" | head -5
 git apply "$OUT/patch.diff" || { echo "patch does not apply"; exit 2; }
 echo "== existing suite with change"
 cargo test --workspace --no-fail-fast --offline 2>&1 | grep -E "^test result|FAILED|failed" | sort | uniq -c
 echo "== demo with change"
-cargo test -p fastrace@0.7.9 --features enable --offline --test "$demo" 2>&1 | grep -E "^test result|panicked|FAILED|error" | head -5
+$DEMOCMD 2>&1 | grep -E "^test result|panicked|FAILED|error" | head -5
 git checkout -q -- .
 git status --short | head -5
 } > "$OUT/confirm.log" 2>&1
